@@ -8,12 +8,14 @@ PINS = {
     "CxxParser._maybe_parse_class_enum_decl": "0ef70070edf7ac5211a9e518",
     "CxxParser._parse_decl": "c1738e4cc791a6362a5d23e6",
     "CxxParser._parse_class_decl_base_clause": "c2f037b6dcbdee0e01c7ecf3",
-    "CxxParser._parse_method_end": "d44b03d1e9ba047189393fbe",
+    "CxxParser._parse_method_end": "a65cb08f7c5fef869eda739f",
     "CxxParser._discard_ctor_initializer": "7734cf1f4e4fddb31f943567",
     "CxxParser._parse_field": "1185f75a2b4379ede0104654",
     "CxxParser._parse_bitfield": "461c4046fd501aa1c634151c",
     "CxxParser._parse_declarations": "af253c9cb8607bfedc3d6df9",
     "CxxParser._parse_function": "9be2cc83cdcd42156746acb3",
+    "CxxParser._parse_pqname_name_operator": "d16058bd347fce5958602a75",
+    "CxxParser._parse_operator_conversion": "b016db67d23cd6ecf610e839",
 }
 
 
